@@ -19,7 +19,8 @@ Proof. repeat split; cbn; try discriminate; intros; discriminate. Qed.
 Lemma a_inv_step s c : acc_inv s -> a_enabled s c = true -> acc_inv (snd (a_step s c)).
 Proof.
   intros [H1 [H2 [H3 H4]]] He. destruct s as [m i h d ga gw]. cbn in *.
-  destruct c as [| | | |k v|r]; cbn in *.
+  destruct c as [| | | |k v|r|]; cbn in *.
+  7: { repeat split; intros; try discriminate. }
   - repeat split; try tauto; intros; try discriminate; try (now apply H2); try (now apply H3); now apply H4.
   - subst. repeat split; intros; try discriminate; try tauto.
     + inversion H. subst. tauto.
@@ -51,7 +52,7 @@ Proof.
   intros cs c s Ht -> He Hd.
   pose proof (a_inv_run cs a_init a_inv_init Ht) as [H1 [H2 [H3 H4]]].
   set (s := a_run a_init cs) in *. destruct s as [m i h d ga gw]. cbn in *.
-  destruct c as [| | | |k v|r]; cbn in Hd; try congruence.
+  destruct c as [| | | |k v|r|]; cbn in Hd; try congruence.
   - destruct k; destruct i, m; cbn in Hd; try congruence;
       destruct h as [|[]|]; cbn in Hd; try congruence; destruct v; cbn in Hd; try congruence;
       (split; [eexists; reflexivity|]); repeat split; tauto.
@@ -91,7 +92,7 @@ Print Assumptions C08_allowed_in_write_context.
 Theorem C08_readers_pure : forall s c,
   (forall k v, c <> Mutator k v) -> x_disk (snd (a_step s c)) = x_disk s.
 Proof.
-  intros [m i h d ga gw] c Hc. destruct c as [| | | |k v|r]; cbn; try reflexivity.
+  intros [m i h d ga gw] c Hc. destruct c as [| | | |k v|r|]; cbn; try reflexivity.
   - exfalso. now apply (Hc k v).
   - destruct r; [destruct i| |destruct h; try destruct i]; reflexivity.
 Qed.
@@ -110,6 +111,16 @@ Theorem C08_reentry_is_read_only : forall s c k v, c = ExitNormal \/ c = ExitExn
   fst (a_step s' (Mutator k v)) = true /\ x_disk (snd (a_step s' (Mutator k v))) = x_disk s'.
 Proof. intros s c k v [-> | ->]; destruct k; cbn; split; reflexivity. Qed.
 Print Assumptions C08_reentry_is_read_only.
+
+(* the object copy() returns carries no write permission, whatever the state of the object it was taken from: a
+   mutation through it raises — with no context and inside a plain context — until its own allow_write() *)
+Theorem C08_copy_is_read_only : forall s k v,
+  let c0 := snd (a_step s CopySwitch) in
+  let c1 := snd (a_step c0 Enter) in
+  (fst (a_step c0 (Mutator k v)) = true /\ x_disk (snd (a_step c0 (Mutator k v))) = x_disk s) /\
+  (fst (a_step c1 (Mutator k v)) = true /\ x_disk (snd (a_step c1 (Mutator k v))) = x_disk s).
+Proof. intros s k v. destruct k; cbn; repeat split; reflexivity. Qed.
+Print Assumptions C08_copy_is_read_only.
 
 (* every handle opened implicitly is closed again *)
 Theorem C08_implicit_closed : forall cs s r,
